@@ -4,7 +4,7 @@ import json
 CLAIMED = {
  "C01": ("bounded symbolic execution of the real tokenizer pipeline (public API: reset_sentence, tokenize) on concrete sentences over concrete dictionary structure with symbolic costs/ids/connection matrix; char-to-byte offsets and every Token accessor for symbolic Unicode code points of fixed UTF-8 widths",
          "Kani/CBMC translation and SAT solver trusted; sentences of N<=3 characters, dictionaries of <=3 words, <=3 categories, matrix connector; token list read at concrete indices through a hook, accessors verified separately; nothing outside the listed bounds is claimed"),
- "C02": ("Bellman step of search_min_node / insert_node / insert_eos from an arbitrary boundary state (inductive), whole lattices of concrete shape up to N=4 compared with a reference recurrence and with an arbitrary competing chain picked by the solver, and the reported path's accumulated total_cost",
+ "C02": ("Bellman step of search_min_node / insert_node / insert_eos from an arbitrary boundary state (inductive), whole lattices of concrete shape up to N=4 compared with a reference recurrence and with an arbitrary competing chain picked by the solver, the reported path's accumulated total_cost, and (whole pipeline) the ids and costs of an unknown token being those of its unk.def entry",
          "matrix connector instantiation; |prefix cost| < 2^28; boundary of <=4 nodes; shapes listed in the evidence"),
  "C03": ("gen_unk_words against a reference written from the statement for every category layout/invoke/group/length/max_grouping_len at concrete (n,start) up to n=4; compute_groupable; char_info lookup for every scalar; lexicon prefix search on generator-built tries with symbolic input",
          "char.def: CharProperty::from_reader is not executed symbolically (text parsing does not fold); instead the table it builds natively at check time for one 11-line char.def is checked by the solver against the lines of the file for every Unicode scalar (last covering line wins, inclusive bounds, DEFAULT otherwise); known finding: supplementary-plane characters take U+0000's entry"),
@@ -18,7 +18,7 @@ CLAIMED = {
          "construction from bigram.right/left/cost text (from_readers, template split, interning) is not executed symbolically (hashbrown maps and text parsing do not fold): it runs natively at check time on one concrete 12-template model with ragged rows and BOS/EOS entries and the solver checks cost() of the resulting raw and dual connectors for every id pair against the defining sums computed by an independent reference; ScorerBuilder::build on concrete key sets is attempted in the thorough tier (BTreeMap iteration does not fold: non-core); AVX2 path not modelled by Kani"),
  "C08": ("system {a} + user {ab} vs system {a,ab} with shared symbolic parameters: same optimal cost, same candidate counts, the user word offered as a user-lexicon candidate with the same prefix minimum, system words still available; reset_user_lexicon_from_reader(None) removes every user candidate; on an id-mapped dictionary the real reset_user_lexicon_from_reader/parse_csv translate the first, the replacing and the reloaded-after-clear user lexicon with the retained mapping (concrete one-row CSVs, symbolic mapping)",
          "the double-array builder behind Lexicon::from_entries does not fold under CBMC: in the CSV instances it is stubbed by a trie the current code built natively for the same surface; CSV rows are concrete (parse_csv folds on concrete rows only); id verification is covered under C10 (c10_verify_ids)"),
- "C09": ("any 21-byte header different from the current magic followed by a valid body is rejected (all header bytes symbolic; also with only the 4 version bytes or only the terminator byte symbolic, which stay decidable when header handling grows); the complete image loads; hand-written decoders on symbolic bytes: U31 and U31x8 reject exactly the out-of-range lanes and every truncated input, the Scorer decoder rejects inconsistent array lengths; every cut point inside the header and inside the trie byte array of a whole image (symbolic cut point per 16-byte window); thorough tier: every strict prefix of a Scorer image with symbolic contents",
+ "C09": ("any 21-byte header different from the current magic followed by a valid body is rejected (all header bytes symbolic; also with only the 4 version bytes or only the terminator byte symbolic, which stay decidable when header handling grows; also through a reader whose read() hands out one byte per call); the complete image loads; hand-written decoders on symbolic bytes: U31 and U31x8 reject exactly the out-of-range lanes and every truncated input, the Scorer decoder rejects inconsistent array lengths; every cut point inside the header and inside the trie byte array of a whole image (symbolic cut point per 16-byte window); thorough tier: every strict prefix of a Scorer image with symbolic contents",
          "images of 340-700 bytes with empty strings; cut points that fall inside a scalar or length field of the bincode body are NOT decided (the symbolic read outcome is merged into the decoded value and nothing downstream folds; two such windows stay registered as non-core to document the no-verdict) - there the claim rests on the decoders propagating read errors, checked at codec level (U31, U31x8, Scorer truncation); reader = element-wise CutReader instantiation of the generic Read parameter; stubs: unty::type_equal, alloc::fmt::format"),
  "C10": ("numeric/packing kernels: CharInfo::new bit packing for all inputs; matrix index arithmetic; Lexicon/UnkHandler::verify accept exactly in-range ids; composing two arbitrary valid mappings of a non-square connector stays in range and is 'first, then second' (mapping validation itself: see C06); accepted-dictionary-implies-safe-use through the C01 pipeline instances",
          "totality over arbitrary file bytes is not decided (parsers over >5 arbitrary bytes are out of reach); listed in DESIGN"),
